@@ -113,3 +113,15 @@ var probeClaimOrder = []emitted{
 	hist(withID(cNewEpic("E"), "EEEEEE"), withID(cNewTask("title", "oldest", "epic", "i1"), "ZZZZZZ"), withID(cNewTask("title", "younger", "epic", "i1"), "BBBBBB"),
 		withID(cNewTask("title", "outside"), "AAAAAA"), cCompact(), Cmd{"name": "claim", "mode": "json", "agent": "a1", "epic": "i1"}, cClaim("a2")),
 }
+
+// histories that continue after a torn tail (a writer died inside write(2))
+func cTear(how string) Cmd { return Cmd{"name": "tear", "mode": "json", "how": how} }
+
+var probeTorn = []emitted{
+	hist(cNewTask("title", "A"), cNewTask("title", "B"), cTear("partial"), cSet("i1", "title", "renamed"), cListReady(), cSet("i2", "state", "done")),
+	hist(cNewTask("title", "A"), cNewTask("title", "B"), cTear("partial"), cSet("i1", "state", "error"), cSet("i1", "body", "one event")),
+	hist(cNewTask("title", "A"), cTear("partial"), cClaim("a1"), cSet("i1", "state", "done"), cPrune()),
+	hist(cNewTask("title", "A"), cNewTask("title", "B"), cTear("full"), cSeq("i1", "i2"), cSeq("i2", "i1"), cCompact()),
+	hist(cNewTask("title", "A"), cTear("partial"), cNewTask("title", "B"), cTear("partial"), cNewEpic("E"), cTear("full"), cSet("i1", "epic", "i3")),
+	hist(cNewTask("title", "A"), cTear("partial"), Cmd{"name": "plan", "mode": "json", "doc": map[string]any{"title": "P", "tasks": []any{map[string]any{"title": "x"}}}}, cTear("partial"), cCompact(), cListReady()),
+}
